@@ -486,6 +486,68 @@ def rule_shared2(prog, res):
               prog, Result)
 
 
+# ------------------------------------------------------------------ R12
+def rule_r12(prog, res):
+    res.rule('R12', 'the client binds arguments by position and by name '
+             'only: whether a value is sent never depends on its truthiness')
+    c = prog.cls('spyne.client._base:RemoteProcedureBase')
+    f = c.methods.get('get_out_object')
+    if f is None:
+        raise AnalysisError('RemoteProcedureBase.get_out_object', 'not found')
+
+    def is_value(e, names):
+        if isinstance(e, ast.Name):
+            return e.id in names
+        if isinstance(e, ast.Subscript) and isinstance(e.value, ast.Name):
+            return e.value.id in ('args', 'kwargs')
+        if isinstance(e, ast.Call) and isinstance(e.func, ast.Attribute) and \
+                isinstance(e.func.value, ast.Name) and \
+                e.func.value.id == 'kwargs' and e.func.attr in ('get', 'pop'):
+            return True
+        return False
+    names = set()
+    for _ in range(3):
+        for a in walk_no_defs(f.node):
+            if isinstance(a, ast.Assign) and len(a.targets) == 1 and \
+                    isinstance(a.targets[0], ast.Name) and any(
+                        is_value(e, names) for e in ast.walk(a.value)):
+                names.add(a.targets[0].id)
+    sets = [c_ for c_ in calls_in(f.node) if call_name(c_) == 'setattr' and
+            len(c_.args) == 3]
+    res.floor('R12', 'request member stores', len(sets), 1)
+    bad = []
+    for c_ in sets:
+        for e in ast.walk(c_.args[2]):
+            if isinstance(e, ast.BoolOp) and any(is_value(v, names)
+                                                 for v in e.values):
+                bad.append((c_, unparse(e)))
+    for node in walk_no_defs(f.node):
+        if isinstance(node, (ast.If, ast.IfExp, ast.While)):
+            todo = [node.test]
+            while todo:
+                e = todo.pop()
+                if isinstance(e, ast.BoolOp):
+                    todo.extend(e.values)
+                elif isinstance(e, ast.UnaryOp) and isinstance(e.op, ast.Not):
+                    todo.append(e.operand)
+                elif is_value(e, names):
+                    bad.append((node, unparse(e)))
+        if isinstance(node, ast.Assign) and isinstance(node.value, ast.BoolOp) \
+                and any(is_value(v, names) for v in node.value.values):
+            bad.append((node, unparse(node.value)))
+    res.ob('R12', f.where, 'get_out_object: %d member stores, %d truthiness '
+           'tests of argument values' % (len(sets), len(bad)),
+           'VIOLATED' if bad else 'ok')
+    for node, txt in bad[:2]:
+        res.finding('R12', 'RemoteProcedureBase.get_out_object|truthiness',
+                    '%s:%d' % (f.module.relpath, node.lineno),
+                    'the client decides what to send by the truthiness of an '
+                    'argument (%s): 0, False, "" and empty lists passed by '
+                    'keyword are replaced by the positional value or None, '
+                    'so the function is invoked with a value the caller did '
+                    'not send' % txt)
+
+
 def run(prog, res, tier):
     res.run_rule(rule_shared2, prog, res)
     res.run_rule(rule_r1, prog, res)
@@ -496,6 +558,7 @@ def run(prog, res, tier):
     res.run_rule(rule_r9, prog, res)
     res.run_rule(rule_r10, prog, res)
     res.run_rule(rule_r11, prog, res)
+    res.run_rule(rule_r12, prog, res)
 
 
 _X = 'spyne/protocol/xml.py'
@@ -503,6 +566,23 @@ _S = 'spyne/protocol/soap/soap11.py'
 _A = 'spyne/application.py'
 
 MUTANTS = [
+    Mutant('client-keyword-falsy-dropped', 'R12', 'fire',
+           'spyne/client/_base.py',
+           in_func('RemoteProcedureBase.get_out_object',
+                   "            if k in kwargs:\n"
+                   "                setattr(request_raw, k, kwargs[k])\n",
+                   "            if kwargs.get(k):\n"
+                   "                setattr(request_raw, k, kwargs[k])\n"),
+           'truthiness'),
+    Mutant('client-single-pass-binding', 'R12', 'silent',
+           'spyne/client/_base.py',
+           in_func('RemoteProcedureBase.get_out_object',
+                   "        for k in request_type_info:\n"
+                   "            if k in kwargs:\n"
+                   "                setattr(request_raw, k, kwargs[k])\n",
+                   "        for k, v in kwargs.items():\n"
+                   "            if k in request_type_info:\n"
+                   "                setattr(request_raw, k, v)\n"), None),
     Mutant('header-lookup-by-count', 'R11', 'fire', _S,
            in_func('Soap11.deserialize', "if i < len(header_class):",
                    "if i < len(in_header_dict):"), 'extra-guard'),
